@@ -63,7 +63,7 @@ def compare_mask(ctx, pid, s, n, mask, mbox, grid, aligned, tx, ty, mode, av=5):
 def replay_mask_state(ctx, pid, st, k, rnd):
     """One model state (shape, n, exact sample counts) against the real centre / sub-pixel mask."""
     s, n, m = st['shape'], st['arg'], st['res']
-    tx, ty = rnd.choice([(0, 0), (3, -5), (1000, 77), (-10000, 4096)])
+    tx, ty = rnd.choice([(0, 0), (3, -5), (1000, 77), (-10000, 4096), (10 ** 6, -3 * 10 ** 6)])
     fr = geom.Frame(2, 1.0, float(tx), float(ty), rnd.randint(0, 5))
     try:
         if k % 4 == 1 and geom_supported(s, 'center'):
@@ -195,7 +195,7 @@ def trace_validation(ctx, rnd):
                 s = geomgen.simple(rnd, ['cannulus', 'eannulus', 'rannulus'], cmax=2 * U, smax=3 * U, small_dirs=True)
             else:
                 s = geomgen.compound(rnd, rnd.randint(1, 2), cmax=2 * U, smax=3 * U, small_dirs=True)
-        tx, ty = rnd.choice([(0, 0), (3, -5), (1000, 77), (-10000, 4096)])
+        tx, ty = rnd.choice([(0, 0), (3, -5), (1000, 77), (-10000, 4096), (10 ** 6, -3 * 10 ** 6)])
         fr = geom.Frame(U, 1.0, float(tx), float(ty), rnd.randint(0, 5))
         try:
             region = geom.build(s, fr)
